@@ -268,3 +268,148 @@ def _e(x):
 
 
 HARNESSES = {'prefetch': Prefetch}
+
+
+# ===========================================================================
+# C06 (a): tasks on a worker pool under timeouts and worker deaths
+# ===========================================================================
+
+class AsCompleted(_CHarness):
+  """orchestrate.as_completed / WorkerPool.run over real CourierServers on the
+  fake transport with a fault menu.
+
+  params:
+    W, T:     number of workers / tasks
+    bad:      index of a task that raises ValueError (None: all succeed)
+    ignore:   ignore_failures
+    menu:     fault kinds offered for every maybe_make call ([] = fault free)
+    driver:   'as_completed' | 'run' | 'call_and_wait'
+    timeout:  call_timeout of the pool's workers
+  """
+  name = 'as_completed'
+  tick = 15.0
+  max_steps = 60000
+
+  def __init__(self, W=2, T=2, bad=None, ignore=False, menu=(),
+               driver='as_completed', timeout=60, mode='preempt'):
+    self.params = dict(W=W, T=T, bad=bad, ignore=ignore, menu=list(menu),
+                       driver=driver, timeout=timeout, mode=mode)
+    self.mode = mode
+    _m()
+
+  def setup(self):
+    m = _m()
+    p = self.params
+    lf = m.lazy_fns
+    self.results, self.end = [], None
+    self.after = None
+
+    def body():
+      servers = [m.courier_server.CourierServer(f'w{i}') for i in range(p['W'])]
+      for s in servers:
+        s.start()
+      pool = m.courier_worker.WorkerPool(
+          [f'w{i}' for i in range(p['W'])], call_timeout=p['timeout'])
+      self.pool = pool
+      pool.wait_until_alive(minimum_num_workers=p['W'])
+      fake_courier.NET.menu = {'maybe_make': list(p['menu'])}
+      tasks = []
+      for i in range(p['T']):
+        if p['bad'] == i:
+          tasks.append(lf.trace(fx.raiser)(f'task{i}'))
+        else:
+          tasks.append(lf.trace(fx.task_id)(i))
+      try:
+        if p['driver'] == 'as_completed':
+          for r in m.orchestrate.as_completed(pool, tasks,
+                                              ignore_failures=p['ignore']):
+            self.results.append(r)
+        elif p['driver'] == 'run':
+          for t in tasks:
+            self.results.append(pool.run(t))
+        else:
+          self.results.extend(pool.call_and_wait(tasks[0]))
+        self.end = ('ok',)
+      except sched.Abort:
+        raise
+      except BaseException as e:  # pylint: disable=broad-except
+        self.end = ('exc', e)
+      fake_courier.NET.menu = {}
+      self.after = dict(
+          acquired=[w.address for w in pool.acquired_workers],
+          locked=[w.address for w in pool.all_workers if w.is_locked()],
+          calls=list(fake_courier.NET.calls))
+      for s in servers:
+        if s.has_started:
+          s.stop()
+    return body
+
+  def outcome(self, res):
+    return (res.failure and res.failure[0], tuple(sorted(map(repr, self.results))),
+            self.end and self.end[0], tuple(self.after['locked']) if self.after else None)
+
+  def _cfg(self):
+    p = self.params
+    return (f'{p["driver"]}:W{p["W"]}:'
+            f'{"bad-task" if p["bad"] is not None else "good-tasks"}'
+            f'{"-ignored" if p["ignore"] else ""}')
+
+  def check(self, res):
+    p = self.params
+    cfg = self._cfg()
+    out = []
+    if res.failure:
+      kind, info = res.failure
+      out.append((f'C06:tasks:{kind}{_stuck(kind, info)}:{cfg}',
+                  {'failure': kind, 'info': _info(info)}))
+      return out
+    faults = [c for c in self.after['calls'] if c[2] != 'ok']
+    fault = faults[0][2] if faults else 'none'
+    killed = {c[0] for c in faults if c[2] == 'kill'}
+    usable = p['W'] - len(killed)
+    expected = [('done', i) for i in range(p['T']) if i != p['bad']]
+    if p['driver'] == 'call_and_wait':
+      expected = [('done', 0)] * p['W'] if p['bad'] != 0 else []
+    dup = [r for r, c in collections.Counter(self.results).items() if c > 1]
+    if dup and p['driver'] != 'call_and_wait':
+      out.append((f'C06:tasks:result-delivered-twice:{fault}:{cfg}',
+                  {'results': self.results}))
+    if set(self.results) - set(expected):
+      out.append((f'C06:tasks:invented-result:{fault}:{cfg}',
+                  {'results': self.results}))
+    must_raise = p['bad'] is not None and not p['ignore']
+    if p['driver'] == 'call_and_wait':
+      must_raise = p['bad'] == 0
+    if self.end == ('ok',):
+      if must_raise:
+        out.append((f'C06:tasks:task-error-silently-dropped:{fault}:{cfg}',
+                    {'results': self.results}))
+      elif sorted(self.results) != sorted(expected):
+        out.append((f'C06:tasks:results-missing:{fault}:{cfg}',
+                    {'results': self.results, 'expected': expected}))
+    else:
+      e = self.end[1]
+      if must_raise:
+        if not (isinstance(e, Exception) and 'task' in str(e)
+                and 'Timeout' not in type(e).__name__):
+          # with faults a retriable error may surface first only if no worker
+          # stayed usable
+          if usable > 0:
+            out.append((f'C06:tasks:wrong-error-for-failing-task:{fault}:{cfg}',
+                        {'end': repr(e)}))
+      elif usable > 0:
+        out.append((f'C06:tasks:unexpected-error-with-usable-worker:{fault}:{cfg}',
+                    {'end': repr(e), 'results': self.results,
+                     'calls': self.after['calls']}))
+      elif not isinstance(e, (TimeoutError, RuntimeError, ValueError)):
+        out.append((f'C06:tasks:wrong-error-when-no-worker-usable:{fault}:{cfg}',
+                    {'end': repr(e)}))
+    if self.after['acquired'] or self.after['locked']:
+      how = 'after-error' if self.end != ('ok',) else 'after-success'
+      out.append((f'C06:tasks:workers-left-acquired:{how}:{cfg}',
+                  {'acquired': self.after['acquired'],
+                   'locked': self.after['locked'], 'end': repr(self.end)}))
+    return out
+
+
+HARNESSES['as_completed'] = AsCompleted
